@@ -5,6 +5,7 @@ import Driver.GacDriver
 import Driver.LpDriver
 import Driver.FloatDriver
 import Driver.LowerDriver
+import Driver.MalDriver
 /-
 `selen_model`: reads protocol lines on stdin, prints exactly one result line per
 input line.  State is reset by `case <id>`.
@@ -19,6 +20,7 @@ structure St where
   lp : LpSt := {}
   float : FloatSt := {}
   lower : LowerSt := {}
+  mal : MalSt := {}
 
 def step (st : St) (line : String) : St × String :=
   let ws := words line
@@ -48,6 +50,9 @@ def step (st : St) (line : String) : St × String :=
     else if w.startsWith "lw." then
       let (c, out) := lowerStep st.lower ws
       ({ st with lower := c }, out)
+    else if w.startsWith "mal." then
+      let (c, out) := malStep st.mal ws
+      ({ st with mal := c }, out)
     else (st, "bad-op")
 
 partial def loop (h : IO.FS.Stream) (out : IO.FS.Stream) (st : St) : IO Unit := do
